@@ -549,6 +549,11 @@ def r5_only_selected(ctx):
                 r.check(okl, name + "/list", "worker list = transactions_for_pool(selected, pool)", "worker list = %s" % sig(le)[:120], b.where(bi))
             else:
                 s_ = sig(le)
+                caps = q.closure_captures(b, c.nname)
+                if le[0] == "upvar" and le[1] in caps and not any(q.is_call(mir.strip(d[1]), sel) for d in (q.var_def_exprs(b, caps[le[1]][1]) if caps[le[1]][0] == "var" else [])):
+                    # a buffer living outside the per-pool step: decided by R5b (list/carried-over); its contents are not read here
+                    r.undecided(name + "/list", "worker list is a reused buffer %s filled by a helper: contents not read" % sig(le), c.where(bi))
+                    continue
                 capn = [k for k in q.closure_captures(b, c.nname) if "req" in k]
                 r.check(bool(capn) and s_ == "melmint::transactions_for_pool(^%s, $2)" % capn[0].replace("_ref__", ""), name + "/list",
                         "worker list = transactions_for_pool(selected, pool)", "worker list = %s" % s_, c.where(bi))
@@ -562,6 +567,52 @@ def r5_only_selected(ctx):
     r.check(s in ("<std::option::Option<T> as std::cmp::PartialEq>::eq(Option::Some{0: ^pool_key}, melmint::pool_key_from_data($2.data))",
                   "<std::option::Option<T> as std::cmp::PartialEq>::eq(Option::Some{0: ^pool_key}, PoolKey::from_bytes($2.data))"),
             "transactions_for_pool", "keeps the requests whose data names this pool", "filter is %s" % s)
+
+
+def r5b_per_pool_list(ctx):
+    """each pool is settled against the requests naming THAT pool: a list that outlives the per-pool step (one buffer reused for all pools of the block)
+    must be emptied on every path before it is handed to the per-pool worker"""
+    r = ctx.rule("R5b", "the per-pool request list does not carry requests over from the previous pool of the block (a reused buffer is emptied on every path to the worker)", positional=False)
+    prog = ctx.prog
+    for name, sel, worker in (("process_swaps", "get_swap_transactions", "process_swaps_for_single_pool"), ("process_deposits", "get_deposit_transactions", "process_deposits_for_single_pool"),
+                              ("process_withdrawals", "get_withdrawal_transactions", "process_withdrawals_for_single_pool")):
+        b = prog.body(MM + name)
+        if b is None:
+            r.undecided(name + "/list/carried-over", "%s not found" % name)
+            continue
+        wk = [(c, bi, e) for c in prog.all_nested(b) for bi, e in q.call_exprs(c, worker)]
+        if not wk:
+            r.undecided(name + "/list/carried-over", "no call of %s under %s" % (worker, name))
+            continue
+        for c, bi, e in wk:
+            if len(e[2]) < 3:
+                r.undecided(name + "/list/carried-over", "worker call has %d arguments" % len(e[2]), c.where(bi))
+                continue
+            lst = mir.strip(e[2][-1])
+            if c is b or lst[0] != "upvar":
+                # the list is a value of the per-pool step itself (a fresh `let` inside the closure / loop body): nothing is carried over.
+                # (a loop-body buffer declared before a `for` loop is not read here: undecided, never a violation)
+                if c is b and lst[0] == "var":
+                    loops = [l for l in q.loop_with_source(b, lambda s_: True) if bi in l[1]]
+                    dsites = [s_ for s_ in b.defs().get(lst[1], [])] if hasattr(b, "defs") else []
+                    inside = bool(loops) and any(s_[0] in loops[0][1] for s_ in dsites)
+                    if loops and not inside:
+                        r.undecided(name + "/list/carried-over", "the worker's list is declared outside the per-pool loop: not read", b.where(bi))
+                        continue
+                r.ok(name + "/list/carried-over", "the worker's list is built inside the per-pool step")
+                continue
+            caps = q.closure_captures(b, c.nname)
+            cap = caps.get(lst[1])
+            if cap is not None and cap[0] == "var" and any(q.is_call(mir.strip(d[1]), sel) for d in q.var_def_exprs(b, cap[1])):
+                r.ok(name + "/list/carried-over", "the worker is handed the selected requests themselves")
+                continue
+            clears = [bj for bj, ce in q.all_call_exprs(c) if ce[0] == "call" and ce[1].split("::")[-1] in ("clear", "truncate", "drain") and ce[2] and mir.strip(ce[2][0]) == lst]
+            stale = c.reachable(0, removed=clears)
+            if bi in stale:
+                r.violation(name + "/list/carried-over", "the per-pool list %s outlives the per-pool step and reaches %s without being emptied: requests collected for an "
+                            "earlier pool of the block are settled again against this pool's reserves" % (sig(lst), worker), c.where(bi))
+            else:
+                r.ok(name + "/list/carried-over", "the reused buffer is emptied on every path to the worker")
 
 
 def r6_stage_order(ctx):
@@ -595,4 +646,4 @@ def shared(ctx):
     core.import_rules(ctx, [c01.r6_floor, c01.r10_no_wraparound], "X01")   # a batch total that wraps prices the whole batch against almost nothing
 
 
-RULES = [r1_selection_atoms, r2_canonical_keys, r3_swaps, r3_deposits, r3_withdrawals, r5_only_selected, r6_stage_order, shared]
+RULES = [r1_selection_atoms, r2_canonical_keys, r3_swaps, r3_deposits, r3_withdrawals, r5_only_selected, r5b_per_pool_list, r6_stage_order, shared]
